@@ -103,6 +103,9 @@ func c11Reaches(f *ssa.Function, name string, depth int) bool {
 	return false
 }
 
+// c11PkgFns: the functions of content/file of the program being analysed (set by runC11 / the C12 rules that reuse the roles).
+var c11PkgFns []*ssa.Function
+
 func c11IsPathMutator(n string) bool { _, ok := c11PathArgs[n]; return ok }
 
 func c11HasStringErrResults(f *ssa.Function) bool {
@@ -667,6 +670,7 @@ func runC11(c *Ctx) {
 	if !hasWD {
 		c.LostAnchor("C11.R1.sanitiser-dominance", "field ~/content/file.Store.workingDir (the root all writes must stay under)")
 	}
+	c11PkgFns = fns
 	roles := c11ResolveRoles(c, fns)
 	if roles == nil {
 		return
@@ -948,7 +952,7 @@ func c11AllAtomsPass(atoms []RetAtom, cutOf func() *cut) bool {
 
 func c11R2(c *Ctx, roles *c11Roles) {
 	const R2 = "C11.R2.sanitisers-reject"
-	c.Expect(R2, 13)
+	c.Expect(R2, 14)
 	for _, fn := range roles.SW {
 		c11R2Lexical(c, R2, fn, true)
 		c11R2WritePathAncestors(c, fn, roles)
@@ -1507,6 +1511,86 @@ func c11R2AncestorWalk(c *Ctx, R2 string, S *ssa.Function) {
 		}
 		if !hasParam {
 			okWalk = false
+		}
+	}
+	// (b'') the probe is built on the very base the entry is written under: the base operand of the probed path
+	// is (a parameter lifted to) the sanitiser's argument that its callers join the result with
+	if phi != nil {
+		var baseVals []ssa.Value
+		var els []ssa.Value
+		if jc, ok := Roots(L.Common().Args[0])[0].(*ssa.Call); ok && len(Roots(L.Common().Args[0])) == 1 {
+			for _, a := range jc.Call.Args {
+				c11SliceElems(a, &els)
+			}
+		} else {
+			els = append(els, L.Common().Args[0])
+		}
+		for _, e := range els {
+			if !c11DerivesFrom(e, map[ssa.Value]bool{phi: true}) {
+				baseVals = append(baseVals, e)
+			}
+		}
+		lifted := c11Lift(baseVals, links)
+		if fn == S {
+			lifted = baseVals
+		}
+		kIdx := map[int]bool{}
+		for _, v := range lifted {
+			for _, rt := range Roots(v) {
+				if prm, ok := rt.(*ssa.Parameter); ok && prm.Parent() == S {
+					for i, q := range S.Params {
+						if q == prm {
+							kIdx[i] = true
+						}
+					}
+				}
+			}
+		}
+		okBase, evidence := len(kIdx) > 0, 0
+		why := "the probed path is not built from a parameter of the sanitiser"
+		if okBase {
+			for _, g := range c11PkgFns {
+				for _, call := range Calls(g, func(string) bool { return true }) {
+					if StaticCallee(call) != S {
+						continue
+					}
+					res := ResultOf(call, 0)
+					if res == nil {
+						continue
+					}
+					for _, j := range CallsTo(g, "path/filepath.Join") {
+						var jels []ssa.Value
+						for _, a := range j.Common().Args {
+							c11SliceElems(a, &jels)
+						}
+						usesRes, usesBase := false, false
+						for _, e := range jels {
+							if c11SameRoots(e, res) {
+								usesRes = true
+							}
+							for k := range kIdx {
+								if k < len(call.Common().Args) && c11SameRoots(e, call.Common().Args[k]) {
+									usesBase = true
+								}
+							}
+						}
+						if usesRes {
+							evidence++
+							if !usesBase {
+								okBase = false
+								why = "the caller " + FnName(g) + " joins the sanitised relative path with a base that is not the one the ancestors were probed under"
+							}
+						}
+					}
+				}
+			}
+		}
+		if okBase && evidence == 0 {
+			c.Undecided(R2, tn+"|ancestor-probe-uses-write-base", L.Pos(), "no caller joins the sanitiser's result with a base: cannot tell which base the ancestors must be probed under")
+		} else {
+			c.Check(R2, tn+"|ancestor-probe-uses-write-base", L.Pos(), okBase,
+				ifelse(okBase, "the ancestors are Lstat'ed under the same base value the callers join the result with", why+
+					": the probe is resolved against another directory (e.g. the process working directory), finds nothing, and a symlinked ancestor under the real base goes unnoticed"))
 		}
 	}
 	c.Check(R2, tn+"|ancestor-walk-covers-every-parent", L.Pos(), okWalk,
@@ -2070,6 +2154,9 @@ var c11Mutants = []Mutant{
 		Old:    "\t\t} else if info.Mode()&os.ModeSymlink != 0 {\n\t\t\treturn \"\", fmt.Errorf(\"no symbolic link allowed between %q and %q\", baseRel, target)\n\t\t}\n",
 		New:    "\t\t} else if info.Mode()&os.ModeSymlink != 0 {\n\t\t\treturn \"\", fmt.Errorf(\"no symbolic link allowed between %q and %q\", baseRel, target)\n\t\t} else if info.IsDir() {\n\t\t\tbreak\n\t\t}\n",
 		Expect: "C11.R2.sanitisers-reject|~/content/file.resolveRelToBase|ancestor-walk-left-only-at-base"},
+	{Name: "ancestor-probe-under-relative-base", File: "content/file/utils.go",
+		Old: "os.Lstat(filepath.Join(baseAbs, dir))", New: "os.Lstat(filepath.Join(baseRel, dir))",
+		Expect: "C11.R2.sanitisers-reject|~/content/file.resolveRelToBase|ancestor-probe-uses-write-base"},
 	{Name: "link-target-validated-unresolved", File: "content/file/utils.go",
 		Old:    "\tif _, err := resolveRelToBase(baseAbs, baseRel, path); err != nil {",
 		New:    "\t_ = path\n\tif _, err := resolveRelToBase(baseAbs, baseRel, target); err != nil {",
